@@ -270,8 +270,13 @@ def run_case(case, ctx):
             las.curves[j].data[i] = newv
             edits.append((j, i, newv))
         buf2 = io.StringIO()
+        kw2 = dict(kw)
+        if kw2.get("wrap") and "data_width" in kw2:
+            # the edited samples may print wider than the first table's widest field: keep data_width >= widest field (domain guard)
+            widest_new = max(len(fmt_for(opts, j) % newv) for j, i, newv in edits)
+            kw2["data_width"] = max(kw2["data_width"], widest_new, opts.get("len_numeric_field") or 0)
         try:
-            las.write(buf2, **kw)
+            las.write(buf2, **kw2)
             las3 = lasio.read(buf2.getvalue(), engine=case["engine"])
         except Exception as e:
             ctx.violation("rewrite-after-edit-raised:%s" % type(e).__name__, "second write/read after in-place edits raised %r" % (e,), detail)
